@@ -40,6 +40,7 @@ type gen struct {
 	klist []*chainkit.Key
 	coins []*chainkit.Coin
 	hist  map[string]int
+	lastBad [][2]int // (tx index incl. coinbase, input) corrupted by the last blockTxs call
 }
 
 func newGen(k *chainkit.Kit, g *vlib.Rng) *gen {
@@ -189,6 +190,7 @@ func corrupt(tx *btc.Tx, i int, c *chainkit.Coin) bool {
 func (ge *gen) blockTxs(kind string, ntx, maxin int) (txs []*btc.Tx, fees uint64, note string) {
 	_, tipH := ge.k.Tip()
 	height := tipH + 1
+	ge.lastBad = nil
 	avail := append([]*chainkit.Coin{}, ge.coins...)
 	// deterministic order
 	for i := len(avail) - 1; i > 0; i-- {
@@ -253,6 +255,7 @@ func (ge *gen) blockTxs(kind string, ntx, maxin int) (txs []*btc.Tx, fees uint64
 					continue // a changed scriptSig changes the txid; later in-block spends would dangle
 				}
 				if c != nil && ge.g.Chance(2, 3) && corrupt(tx, i, c) {
+					ge.lastBad = append(ge.lastBad, [2]int{ti + 1, i})
 					done++
 				}
 			}
